@@ -146,3 +146,44 @@ Print Assumptions C04_example_accepts.
 Theorem C04_example_rejects : gen_PoissonDeviance_spo 1 0 = ValueErr.
 Proof. exact ex_poisson_rejects. Qed.
 Print Assumptions C04_example_rejects.
+
+(* ---- the SAME source, regenerated on every run by translate/gen_f.py as a function over PRIMITIVE BINARY64 floats (coq/gen/Gen_*_f.v): what numpy computes, one rounding per operation in source order; compared bit for bit with the implementation on arbitrary doubles (harness/run_genfloat.py).  Print Assumptions lists Coq's primitive float / integer operations only. ---- *)
+From Coq Require Import PrimFloat Bool.
+From MD Require Import lib.NumpyF gen.Gen_ident_f gen.Gen_scoring_f proofs.GenFloatProps.
+Open Scope float_scope.
+
+Theorem C04_float_squared_error :
+  forall y z : float, gen_SquaredError_spo_f y z = FVal ((z - y) * (z - y)).
+Proof. exact gen_SquaredError_spo_f_eq. Qed.
+Print Assumptions C04_float_squared_error.
+
+Theorem C04_float_hes_degree2 :
+  forall level y z : float,
+       gen_hes_spo_f 2 level y z =
+       (if f_eqb level 0.5
+        then FVal ((z - y) * (z - y))
+        else FVal (2 * np_abs_f (ge_ind_f z y - level) * ((z - y) * (z - y)))).
+Proof. exact gen_hes_spo_f_degree2. Qed.
+Print Assumptions C04_float_hes_degree2.
+
+Theorem C04_float_hes_degree2_total :
+  forall level y z : float, is_val (gen_hes_spo_f 2 level y z) = true.
+Proof. exact gen_hes_spo_f_degree2_total. Qed.
+Print Assumptions C04_float_hes_degree2_total.
+
+Theorem C04_float_pinball_is_hqs1 :
+  forall level : float, gen_PinballLoss_spo_f level = gen_hqs_spo_f 1 level.
+Proof. exact gen_PinballLoss_spo_f_is_hqs1. Qed.
+Print Assumptions C04_float_pinball_is_hqs1.
+
+Theorem C04_float_hqs_degree1 :
+  forall level y z : float,
+       gen_hqs_spo_f 1 level y z =
+       (if f_eqb level 0.5 then FVal (0.5 * np_abs_f (z - y)) else FVal ((ge_ind_f z y - level) * (z - y))).
+Proof. exact gen_hqs_spo_f_degree1. Qed.
+Print Assumptions C04_float_hqs_degree1.
+
+Theorem C04_float_hqs_degree1_total :
+  forall level y z : float, is_val (gen_hqs_spo_f 1 level y z) = true.
+Proof. exact gen_hqs_spo_f_degree1_total. Qed.
+Print Assumptions C04_float_hqs_degree1_total.
